@@ -40,7 +40,7 @@ CONSTANTS MaxN,      \* lanes of 1..MaxN rows
 VARIABLES kase, ready, xp, out       \* xp = the expected observation of an evaluated case
 
 Cells  == <<0, 1, 2, NA>>
-Fams   == <<"roll", "cum", "shift", "diff", "fill", "mapov">>
+Fams   == <<"roll", "troll", "cum", "shift", "diff", "fill", "mapov">>
 Univs  == {"all", "runs"}
 
 -----------------------------------------------------------------------------
@@ -51,14 +51,17 @@ RollOps  == SetToSeq({ P("roll", g, w, mp, ctr) :
                          g \in {"sum", "min", "max", "count", "mean"}, w \in 1..MaxW,
                          mp \in (0..MaxW) \cup {NA}, ctr \in {0, 1} })
 RollOpsOK == SelectSeq(RollOps, LAMBDA o : o.b = NA \/ o.b <= o.a)       \* pandas: min_periods <= window
+TimeOps  == SetToSeq({ P("troll", g, w, mp, 0) :
+                         g \in {"sum", "min", "max", "count", "mean"}, w \in 1..(MaxW + 1), mp \in {NA, 0, 1, 2} })
 CumOps   == SetToSeq({ P("cum", g, sk, 0, 0) : g \in {"cumsum", "cumprod", "cummin", "cummax"}, sk \in {0, 1} })
 ShiftOps == SetToSeq({ P("shift", "shift", k, 0, 0) : k \in (0 - MaxP)..MaxP })
 DiffOps  == SetToSeq({ P("diff", "diff", k, 0, 0) : k \in (0 - MaxP)..MaxP })
 FillOps  == SetToSeq({ P("fill", g, lim, 0, 0) : g \in {"ffill", "bfill"}, lim \in (1..MaxLim) \cup {NA} })
 OvOps    == SetToSeq({ P("mapov", "stencil", bf, af, 0) : bf \in 0..MaxOv, af \in 0..MaxOv })
 
-OpsOf == [f \in {"roll", "cum", "shift", "diff", "fill", "mapov"} |->
+OpsOf == [f \in {"roll", "troll", "cum", "shift", "diff", "fill", "mapov"} |->
             CASE f = "roll"  -> RollOpsOK
+              [] f = "troll" -> TimeOps
               [] f = "cum"   -> CumOps
               [] f = "shift" -> ShiftOps
               [] f = "diff"  -> DiffOps
@@ -96,10 +99,16 @@ ULane(n, k, j) == [i \in 1..n |-> (i * (1 + ((k + j) % 2)) + k + j) % 3]
 TgtOf(f, k, j) == IF ((k \div 2) + j) % (IF f = "cum" THEN 2 ELSE 3) = 0 THEN "frame" ELSE "series"
 VkOf(s, k, j)  == IF HasNA(s) \/ (k + j) % 4 = 0 THEN "f" ELSE "i"
 
+\* index labels: 0, 1, 2, ... ; for the time-based windows day numbers with gaps of 1..3 days (a function of the pair)
+RECURSIVE Days(_, _, _)
+Days(n, k, j) == IF n = 1 THEN <<0>>
+                 ELSE LET r == Days(n - 1, k, j) IN Append(r, r[n - 1] + 1 + (((k \div IPow(3, (n - 2) % 6)) + j + n) % 3))
+LabelsOf(f, n, k, j) == IF f = "troll" THEN Days(n, k, j) ELSE [i \in 1..n |-> i - 1]
+
 MkCase(uv, f, n, k, j) ==
   LET o == OpsOf[f][j]
       s == LaneAt(uv, n, k)
-  IN [fam |-> f, op |-> o.op, a |-> o.a, b |-> o.b, c |-> o.c, s |-> s, vk |-> VkOf(s, k, j),
+  IN [fam |-> f, op |-> o.op, a |-> o.a, b |-> o.b, c |-> o.c, s |-> s, t |-> LabelsOf(f, n, k, j), vk |-> VkOf(s, k, j),
       u |-> ULane(n, k, j), tgt |-> TgtOf(f, k, j)]
 
 -----------------------------------------------------------------------------
@@ -147,10 +156,11 @@ Lane  == kase.s
 N     == Len(kase.s)
 
 IsCell(x) == x = RNaN \/ IsRat(x)
-ShapeOK == Judged({"roll", "cum", "shift", "diff", "fill", "mapov"}) =>
+ShapeOK == Judged({"roll", "troll", "cum", "shift", "diff", "fill", "mapov"}) =>
              /\ xp = Expected(kase)
              /\ Len(Res) = N
              /\ \A i \in 1..N : IsCell(Res[i])
+             /\ Len(kase.t) = N /\ StrictlyIncreasing(kase.t)
              /\ kase.vk = "i" => ~HasNA(Lane)
              /\ kase.tgt = "frame" => (Len(kase.u) = N /\ ~HasNA(kase.u))
 
@@ -229,6 +239,20 @@ RollRelations ==
                                   \/ (kase.op # "count" /\ at("count") < (IF kase.b = NA THEN kase.a ELSE kase.b))
                                   \/ (kase.op \in {"min", "max", "mean"} /\ at("count") = 0)
 
+\* time-based windows: on consecutive days a window of w days is the fixed window of w rows (with the same explicit
+\* min_periods); in general the window of row i is a contiguous run of rows ending at i, never longer than w rows
+\* (labels are distinct integers), growing with w
+TimeWindows ==
+  Judged({"troll"}) =>
+     LET mp  == IF kase.b = NA THEN 1 ELSE kase.b
+         tid == [i \in 1..N |-> i - 1]
+     IN /\ RollingTime(tid, Lane, kase.op, kase.a, mp) = Rolling(Lane, kase.op, kase.a, mp, 0)
+        /\ \A i \in 1..N :
+              LET cnt(w) == Cardinality({ j \in 1..i : kase.t[j] > kase.t[i] - w })
+              IN /\ cnt(kase.a) >= 1 /\ cnt(kase.a) <= kase.a /\ cnt(kase.a) <= cnt(kase.a + 1)
+                 /\ \A j \in 1..i : (kase.t[j] > kase.t[i] - kase.a) => \A q \in j..i : kase.t[q] > kase.t[i] - kase.a
+                 /\ Len(TimeWindow(kase.t, [q \in 1..N |-> 0], i, kase.a)) = cnt(kase.a)
+
 \* the stencil value of a row decodes to exactly the neighbours in reach that exist
 StencilDecodes ==
   Judged({"mapov"}) =>
@@ -243,7 +267,7 @@ LayoutsTruthful ==
   (ready /\ kase.fam = "layouts") =>
      \A q \in DOMAIN LayTable[kase.n] :
         LET lay == LayTable[kase.n][q]
-            f   == FrameOfIdx([i \in 1..kase.n |-> i - 1])
+            f   == FrameOfIdx([i \in 1..kase.n |-> i - 1])      \* (divisions are exported as row POSITIONS: the harness maps them to labels)
         IN /\ SumSeq(lay) = kase.n
            /\ DivisionsTruthful(DivsOf(kase.n, lay),
                                 [b \in DOMAIN lay |-> Idxs(SplitBySizes(f, lay)[b])])
